@@ -369,7 +369,9 @@ class Pool(localbase):
     def disconnect(pool):
         con = pool.con
         pool.con = None
-        if con is not None: con.close()
+        if con is None: pass
+        elif pool.pid != os.getpid(): pool.forked_connections.append((con, pool.pid))  # the parent's connection
+        else: con.close()
 
 class Converter(object):
     EQ = 'EQ'
